@@ -187,3 +187,25 @@ Theorem C13_fixed_type_paths :
                  "enum-pattern-path-segment"; "derive-name"] (str "dyn") = true.
 Proof. vm_compute; reflexivity. Qed.
 Print Assumptions C13_fixed_type_paths.
+
+(* ------------------------------------------------------------------------------------------------
+   Name-keyed lookups (function registry, external-function set, struct/enum/newtype tables, field
+   tables): they are filled with the plain Incan name, so they must be QUERIED with the plain name.
+   LOOKUPS is regenerated from emit/** and lower/** on every run with, per lookup, whether its key
+   is derived from escape_keyword. *)
+Theorem C13_lookups_plain : forall l n, In l LOOKUPS -> lookup_hits l n = true.
+Proof. exact lookups_hit. Qed.
+Print Assumptions C13_lookups_plain.
+
+(* a lookup keyed by the escaped spelling misses exactly for the keyword class ... *)
+Theorem C13_escaped_lookup_refuted : exists l n,
+  l_escaped l = true /\ legal_incan_ident n = true /\ Known_C13_rust_keyword n = true /\ lookup_hits l n = false.
+Proof.
+  exists (mk_lookup "model:escaped-key" "function_registry" true), (str "where"). vm_compute. repeat split; reflexivity.
+Qed.
+Print Assumptions C13_escaped_lookup_refuted.
+
+(* ... and is harmless for every other name (why such an edit passes every test that has no keyword name) *)
+Theorem C13_escaped_lookup_off_class : forall l n, gen_is_rust_keyword n = false -> lookup_hits l n = true.
+Proof. exact escaped_lookup_hits_off_keywords. Qed.
+Print Assumptions C13_escaped_lookup_off_class.
